@@ -10,7 +10,7 @@
    PARTIAL: for the HTML append / prepend / replace stages the content clause (output = input plus insertions /
    minus whole element spans) is decided by the correspondence run on damaged documents, not by a theorem. *)
 Require Import RIO.Base RIO.TokMonad RIO.HtmlTok RIO.BodyText RIO.HtmlFilter RIO.ChainProofs RIO.BodyProofs RIO.CodecChain RIO.BodyPass.
-Require Import RIO.TokShift RIO.HtmlSplit.
+Require Import RIO.TokLogic RIO.HtmlTokProofs RIO.TokShift RIO.HtmlSplit.
 Close Scope N_scope.
 
 Theorem C04_nothing_applies : forall lower sel ctok fs chunks,
@@ -60,12 +60,12 @@ Qed.
    what it returns followed by what it still holds is what it held followed by the chunk, for every state of the
    stage, every chunk (any bytes) and whether or not the call fails.  [tok_facts]: the totality facts about the
    tokenizer (see C03). *)
-Theorem C04_html_conservation_partial : forall lower sel W, tok_facts lower W -> forall F input,
+Theorem C04_html_conservation_partial : forall lower sel, lower_ok lower -> forall F input,
   f_in_error F = false ->
   Forall (quiet_tok (f_enter F) (f_leave F))
          (fst (toks lower (fuel_of (f_last F ++ input)) (f_last F ++ input) (new_fragment lower (f_raw_tag F)))) ->
   snd (hfb_filter lower sel F input) ++ held (fst (hfb_filter lower sel F input)) = held F ++ input.
-Proof. exact hfb_conservation_partial. Qed.
+Proof. intros lower sel LO. exact (hfb_conservation_partial lower sel wf0 (tok_facts_wf0 lower LO)). Qed.
 
 Print Assumptions C04_nothing_applies.
 Print Assumptions C04_error_passthrough.
